@@ -14,6 +14,8 @@
          for nxt in in_edges(source) with the same descriptor       snapshot  ins E e   taken AFTER the outgoing loop ran
             cls: (nxt.source, target, nxt.wrapped_field)
    every inferred relation goes through add_to_graph again          recursion on explicit fuel; None = out of fuel
+   (the incoming loop skips a source whose instance was collected but not swept yet, 52517d3: the model has no garbage
+    collection - every object of the population lives through the history - so that branch is never taken here)
 
    The graph is the list of relations in insertion order, newest first. *)
 From Coq Require Import List Bool Arith Lia.
